@@ -84,6 +84,14 @@ def standins(tier, seed):
     for d in (3, 4) + ((5,) if tier != 'quick' else ()):
         cfgs += _custom_bases(rng, d, 6 if tier == 'quick' else 40)
     cfgs += [dict(p=7, sample_pairs=300), dict(p=4, q=3, r=1, sample_pairs=200 if tier == 'quick' else 2000)]
+    # lazily filled tables (d > 6): every kind of signature layout, incl. several null generators and mixed orderings
+    big = [dict(p=4, q=1, r=2), dict(p=2, q=2, r=3), dict(p=5, q=2, r=0), dict(p=3, q=3, r=2)]
+    for _ in range(3 if tier == 'quick' else 12):
+        d = rng.choice([7, 7, 8])
+        big.append(dict(signature=[rng.choice([1, -1, 0]) for _ in range(d)], start_index=rng.choice([0, 1])))
+    for c in big:
+        c['sample_pairs'] = 250 if tier == 'quick' else 2500
+    cfgs += big
     chunks = [cfgs[i::12] for i in range(12)]
     bound = (f'all signature orderings d<=2, {"12 sampled" if tier == "quick" else "up to 120"} per d<={dmax}, start_index 0..2, '
              'named algebras, seeded custom bases d<=4(5), lazy path d=7,8 on sampled pairs; all ordered blade pairs per configuration (d<=6)')
